@@ -3,8 +3,10 @@ C01 / C13 / C09 — **Layer B**: from abstract commands to bytes.
 
 What is proved here (kernel-checked, no bound on sizes, histories, runes, colours or styles):
 
-* `db_layerB` — 22 entries of the regenerated terminal database are in the class `LayerB.XtermLike` (every
-  capability string the draw path uses is one of the listed standard ECMA-48 / xterm forms).
+* `db_layerB` — 41 of the 49 entries of the regenerated terminal database are in the class `LayerB.XtermLike` (every capability
+  string the draw path uses is, once TPuts has removed its padding, one of the listed standard ECMA-48 / xterm forms, or absent
+  where the library tolerates that); `db_outside` — the other eight are the four corner-trick entries (beterm, cygwin, sun,
+  sun-color) and the four entries that do not speak ECMA-48 (hpterm, vt52, wy50, wy60).
 * `rwClip_ok` — the regenerated go-runewidth table, restricted to Go's `rune` range, satisfies the hypotheses
   `RwOk` and `LayerB.RwB` made about the rune-width function.
 * `show_faithful_bytes_partial` — **the byte-level reference emulator** (`Spec.Ecma48`), fed exactly the bytes
@@ -20,30 +22,40 @@ What is proved here (kernel-checked, no bound on sizes, histories, runes, colour
 
 * **`xl_show_faithful_bytes`, `xl_sync_faithful_bytes`, `xl_output_wellformed`, `xl_rep_after`** and their database instances
   **`db_show_faithful_bytes`, `db_sync_faithful_bytes`, `db_output_wellformed`** — the same statements WITHOUT the hypothesis
-  `CfgB` for every terminal description in `XtermLike` (the 22 database entries; also those entries after LookupTerminfo
+  `CfgB` for every terminal description in `XtermLike` (the 41 database entries; also those entries after LookupTerminfo
   has added the direct-colour strings, `tiDirect_xl`), for the configuration the driver builds (`drawCfgOf`/`renderCfgOf`).
-  `CapsFx` is proved for the class in `Lemmas/LayerBXtermFx.lean` (`xl_capsFx`): `xl_setPen_effect` (the whole style block
-  for EVERY style without hyperlink: sgr0, sendFgBg with default / reset / palette / direct / fitted colours through
-  setaf, setab, setfgbg, the three RGB strings, bold, underline colour indexed / direct / reset + smul + the four underline
-  styles, reverse, blink, dim, italic, strike, OSC 8 off → pen = `penOf rc s` exactly), `xl_show_effect` (the four `cnorm`
-  forms + DECSCUSR for cursor styles 0…6), `xl_clear_effect` (sgr0 + OSC 8 off + colours + either `clear` form: every cell a
-  known blank with the style's background, cursor home).  Non-vacuity: `bDemo`, `bDirect` (kernel-evaluated emulator grid).
+  `CapsFx` is proved for the class in `Lemmas/LayerBXtermFx.lean` (`xl_capsFx`): `xl_goto_effect` (`cup` with or without
+  `$<5>` / `$<10>`), `xl_setPen_effect` (the whole style block for EVERY style without hyperlink: sgr0 in nine forms, sendFgBg
+  with default / reset (`op` in three forms) / palette / direct / fitted colours through setaf, setab, setfgbg in five families of
+  spellings, the three RGB strings, or — monochrome — nothing but a flip of reverse video; bold, underline colour indexed / direct / reset + smul + the
+  four underline styles, reverse, blink, dim, italic, strike — each possibly absent or padded —, OSC 8 off where the screen has
+  hyperlink strings → pen = `penOf rc s` exactly), `xl_hide_effect` (two `civis` forms), `xl_show_effect` (five `cnorm` forms or
+  none + DECSCUSR for cursor styles 0…6), `xl_clear_effect` (sgr0 + OSC 8 off + colours + either `clear` form, padded or not:
+  every cell a known blank with the style's background, cursor home).  Non-vacuity: `bDemo`, `bDirect` (xterm-256color), `bVt`
+  (vt100: monochrome, padded, no civis, no OSC 8) — kernel-evaluated emulator grids.
 
 The generic theorems keep the suffix `_partial` because they are relative to `CfgB`; for the `xl_`/`db_` theorems what remains
 assumed / outside is:
   (1) `FitOk rc` — the colour-fitting function (go-colorful's nearest-colour search, an external function, parameter
-      `RenderCfg.fit`) returns an entry of the screen's palette.  Nothing else is assumed about it: the theorem holds for
-      whatever palette entry it picks, and `penOf` names that entry.  `fitOk_findColor` / `xl_fitOk_findColor`: tcell's own
-      `FindColor` scan (model `Color.findColor`) over the screen's palette satisfies it for ANY colour distance, so what is
-      really assumed is only that the `fit` table the model is run with is that scan (checked per run by the correspondence).
-  (2) hyperlinks (`Style.url ≠ ""`), cursor-colour requests, the four corner-trick entries and terminals without a
-      hide-cursor string are outside the domain (`OpB`, `XtermLike`); terminals outside `XtermLike` (27 database entries,
-      see `db_layerB`) are covered only by the generic `_partial` theorems.
+      `RenderCfg.fit`) returns an entry of the screen's palette, if the screen has a palette (nothing on monochrome terminals).
+      Nothing else is assumed about it: the theorem holds for whatever palette entry it picks, and `penOf` names that entry.
+      `fitOk_findColor` / `xl_fitOk_findColor`: tcell's own `FindColor` scan (model `Color.findColor`) over the screen's
+      palette satisfies it for ANY colour distance, so what is really assumed is only that the `fit` table the model is run
+      with is that scan (checked per run by the correspondence).
+  (2) hyperlinks (`Style.url ≠ ""`), cursor-colour requests and the four corner-trick entries are outside the domain (`OpB`,
+      `XtermLike`); terminals outside `XtermLike` (8 database entries, see `db_outside`) are covered only by the generic
+      `_partial` theorems.
   (3) the bytes written by Init (engage) are not modelled here: the emulator state `e0` at the start is any state with
-      the parser in the ground state, UTF-8, no alternate character set, replace mode and no complaint (`Good`).
-  (4) `XtermLike` asks, beyond the standard forms, that the direct-colour strings come all three or not at all and that the
-      indexed / direct underline-colour strings come together (true of every entry and of what tcell synthesises; `penOf`
-      would otherwise have to name which of the strings exist).
+      the parser in the ground state, UTF-8, no alternate character set, replace mode and no complaint (`Good`) that is `Quiet`:
+      on a terminal for which the screen has no hyperlink strings no hyperlink is active, on a terminal without `civis`/`cnorm`
+      the cursor is visible (vacuous for entries that have both, e.g. the xterm family; true of `Term.init`, `quiet_init`).  The library
+      cannot re-establish either — it writes nothing — so the environment move `corrupt` leaves the hyperlink state of such a
+      terminal alone (`LayerB.corruptFor`; cursor visibility is never touched by `corrupt`).
+  (4) `XtermLike` asks, beyond the standard forms, that the direct-colour strings come all three or not at all, that the
+      indexed / direct underline-colour strings come together and that `civis` / `cnorm` come together (true of every entry and
+      of what tcell synthesises; `penOf` would otherwise have to name which of the strings exist).
+  (5) on a terminal without `civis` an off-screen cursor is not hidden but parked: `DisplaysBytes.parked` (the emulator's cursor
+      is in the bottom-right cell), `DisplaysBytes.hidden` only speaks about terminals with `civis`.
 -/
 import Tcell.Lemmas.LayerBWorld
 import Tcell.Lemmas.LayerBXterm
@@ -55,36 +67,35 @@ open Tcell Tcell.LayerB Tcell.Spec.Ecma48
 
 /-! ### the class over the regenerated database -/
 
-/-- the 39 entries of the built-in database Layer B is proved for -/
+/-- the 41 entries of the built-in database Layer B is proved for -/
 def layerBNames : List String :=
-  ["alacritty", "alacritty-direct", "ansi", "dtterm", "eterm", "eterm-color", "foot", "gnome", "gnome-256color", "konsole",
-   "konsole-256color", "kterm", "linux", "rxvt", "rxvt-256color", "rxvt-88color", "rxvt-unicode", "rxvt-unicode-256color",
+  ["aixterm", "alacritty", "alacritty-direct", "ansi", "dtterm", "eterm", "eterm-color", "foot", "gnome", "gnome-256color", "konsole",
+   "konsole-256color", "kterm", "linux", "pcansi", "rxvt", "rxvt-256color", "rxvt-88color", "rxvt-unicode", "rxvt-unicode-256color",
    "screen", "screen-256color", "st", "st-256color", "tmux", "tmux-256color", "vt100", "vt102", "vt220", "vt320", "vt400",
    "vt420", "wy99-ansi", "wy99a-ansi", "xfce", "xterm", "xterm-256color", "xterm-88color", "xterm-direct", "xterm-ghostty",
    "xterm-kitty"]
 
 /-- the entries outside, by reason -/
 def cornerTrickNames : List String := ["beterm", "cygwin", "sun", "sun-color"]
-def opSetsColourNames : List String := ["aixterm", "pcansi"]
 def nonEcmaNames : List String := ["hpterm", "vt52", "wy50", "wy60"]
 
 set_option maxRecDepth 100000 in
-/-- exactly these 39 of the 49 entries of the built-in database are in the class `XtermLike`.  Compared with the 22 entries of
+/-- exactly these 41 of the 49 entries of the built-in database are in the class `XtermLike`.  Compared with the 22 entries of
 the xterm family the class started with, it now admits: descriptions for which the library derives no hyperlink strings
 (no mouse / xterm flag: dtterm, ansi, eterm(-color), vt100…vt420, wy99(a)-ansi; the linux console), no `civis`/`cnorm`
 (ansi, eterm(-color), kterm, vt100, vt102: the cursor is parked at the bottom-right corner instead), no colours at all
 (eterm, vt100…vt420, wy99(a)-ansi: nothing is written for a colour, a dark foreground flips reverse video), `$<n>` padding
 after `cup` / `sgr0` / `clear` / `smul` / `bold` / `rev` / `blink` (vt100, vt102, vt400, vt420, wy99(a)-ansi: TPuts strips it),
 `civis`/`cnorm` with the linux console's `CSI ? n c`, `sgr0` with `CSI " q` (wy99) or `;10 … ESC ( B`, and the palette
-strings `%p1%{30}%+%d` (eterm-color), always-`38;5;n` (rxvt-unicode(-256color)) and `38:5:n` (foot).  Outside (`db_outside`):
-the four corner-trick entries; aixterm and pcansi, whose `op` does not restore the default colours but SETS colours
-(`CSI 32 m CSI 40 m`, `CSI 37;40 m`), so a style with `ColorReset` is shown in green/white on black there — `penOf` does not
-describe that; hpterm, vt52, wy50, wy60 do not speak ECMA-48. -/
+strings `%p1%{30}%+%d` (eterm-color), always-`38;5;n` (rxvt-unicode(-256color)) and `38:5:n` (foot); aixterm and pcansi, whose
+`op` does not restore the default colours but SETS colours (`CSI 32 m CSI 40 m`, `CSI 37;40 m`): a style with `ColorReset`
+is shown green / white on black there, and that is what `penOf` says (`opSel`, `fgSel`, `bgSel`).  Outside (`db_outside`):
+the four corner-trick entries; hpterm, vt52, wy50, wy60 do not speak ECMA-48. -/
 theorem db_layerB : (Gen.db.all fun e => XtermLike e == layerBNames.contains e.name) = true := by decide +kernel
 
-/-- the ten entries outside the class are exactly the three named groups -/
+/-- the eight entries outside the class are exactly the two named groups -/
 theorem db_outside : (Gen.db.all fun e => XtermLike e ||
-    (cornerTrickNames ++ opSetsColourNames ++ nonEcmaNames).contains e.name) = true ∧
+    (cornerTrickNames ++ nonEcmaNames).contains e.name) = true ∧
     (Gen.db.all fun e => cornerTrickNames.contains e.name ==
       (e.autoMargin && e.disableAutoMargin.isEmpty && !e.insertChar.isEmpty)) = true := by
   constructor <;> decide +kernel
@@ -348,8 +359,9 @@ theorem sync_faithful_bytes_partial (hc : CfgB c rc) (w h : Int) (hs : SizeOk w 
 
 /-- **`CfgB` for every `XtermLike` terminal description**: the only things left to assume are about the *configuration*, not
 about the terminal — the rune-width function is well-behaved (`RwOk`, `RwB`: proved for the regenerated table, `rwClip_ok`),
-the locale is UTF-8, the draw path does not use the corner trick and has a hide-cursor string (both follow from `XtermLike`
-for the configuration `drawCfgOf` the driver builds), and the external colour-fitting function returns palette entries. -/
+the locale is UTF-8, the draw path does not use the corner trick and knows whether there is a hide-cursor string (both follow
+from `XtermLike` for the configuration `drawCfgOf` the driver builds), and the external colour-fitting function returns palette
+entries. -/
 theorem cfgB_of_xtermlike (hx : XtermLike rc.ti = true) (hd : rc.d = derive rc.ti) (hfit : FitOk rc)
     (hrw : RwOk c.rw) (hrwB : RwB c.rw) (hp : Utf8Payload c) (hpl : c.Plain) (hh : c.hasHide = !rc.ti.hideCursor.isEmpty) :
     CfgB c rc :=
@@ -432,8 +444,8 @@ theorem xl_rep_after (w h : Int) (hs : SizeOk w h) (e0 : Term) (he : Good rwClip
   rep_after_partial (cfgB_of_ti ti hx lg wg fz tc fit fit0 hwg hfit) w h hs e0 he hq hw hh ops hv
 end
 
-/-- **the headline for the built-in database**: for each of the 22 `XtermLike` entries Show is faithful at the level of bytes
-(no hypothesis on the terminal left) -/
+/-- **the headline for the built-in database**: for each of the 41 entries of the class (`layerBNames`) Show is faithful at the
+level of bytes (no hypothesis on the terminal description left) -/
 theorem db_show_faithful_bytes : ∀ e ∈ Gen.db, e.name ∈ layerBNames →
     ∀ (lg wg fz tc : Bool) (fit fit0 : Nat → Nat), (wg = true → lg = true) → FitOk (renderCfgOf e tc fit fit0) →
     ∀ (w h : Int), SizeOk w h → ∀ (e0 : Term), Good rwClip e0 → Quiet (renderCfgOf e tc fit fit0) e0 → (e0.grid.w : Int) = w → (e0.grid.h : Int) = h →
@@ -591,6 +603,13 @@ example : (bVt.e.grid.get 0 0).runes = [0x4e16] ∧
     (bVt.e.grid.get 2 0).runes = [0x61, 0x301] ∧ (bVt.e.grid.get 2 0).pen = {} ∧
     (bVt.e.cx, bVt.e.cy) = (3, 1) ∧ bVt.e.modes.cursorVisible = true ∧ bVt.e.malformed = [] ∧
     Render.renderAll rcVt [.goto 0 0, .setPen stVt] = [27,91,49,59,49,72, 27,91,109,15, 27,91,49,109, 27,91,52,109, 27,91,55,109] := by
+  decide +kernel
+
+/-- aixterm: `op` (`CSI 32 m CSI 40 m`) sets green on black, and `penOf` says so: a style with `ColorReset` as foreground -/
+def rcAix : RenderCfg := renderCfgOf Gen.e00 false (fun _ => 2^32) (fun _ => 2^32)
+example : Gen.e00.name = "aixterm" ∧ penOf rcAix { fg := colorReset } = { fg := .idx 2, bg := .idx 0 } ∧
+    (e0Demo.feed (Render.render rcAix (.setPen { fg := colorReset }))).pen = penOf rcAix { fg := colorReset } ∧
+    (e0Demo.feed (Render.render rcAix (.setPen { fg := colorReset, bg := 2^32 + 1 }))).pen = { fg := .idx 2, bg := .idx 1 } := by
   decide +kernel
 
 end Tcell.Props.C01B
